@@ -6,15 +6,11 @@ references and inputs mostly refer to things that exist.
 
 Known-defect triggers of the pinned tree that the generator AVOIDS (each is a
 decidable predicate on the case; witnesses live in corpus/C04/finding_*.json):
-  D8   uncached cells defined by a lambda            -> written as def instead
-  D9   documentation that is not [safe_doc]           -> docs drawn from SAFE_DOCS
   D24  input assigned to a derived cells             -> inputs only on defined cells
   D33  refmode != auto on a non-object reference      -> refmode only on object refs
   D34  allow_none assigned to a cells that has derived copies (not propagated; C03 domain) -> left None
-  D35  empty documentation of a lambda cells           -> "doc"
   D36  a reference name defined in two spaces that share a sub space, in an order the reader
        cannot replay (references are set after all bases)  -> later definition dropped
-  D1   (C03) cells created in a base whose sub already sees the name -> other name
 (see findings.d/C04.txt).  `avoid=False` switches the avoidance off (used to
 look for the defects, never by the check)."""
 import json
@@ -64,7 +60,7 @@ class Gen:
         self.spaces = {}              # tuple(path) -> Sp
         self.order = []
         self.mrefs = {}
-        self.filtered = {"D8": 0, "D9": 0, "D24": 0, "D33": 0, "D34": 0, "D35": 0, "D36": 0, "D37": 0}
+        self.filtered = {"D24": 0, "D33": 0, "D34": 0, "D36": 0, "D37": 0}
         self.deferred = []
         self.features = set()
 
@@ -76,13 +72,11 @@ class Gen:
         return self.rng.random() < p
 
     def doc(self):
-        if not self.avoid and self.chance(0.3):
+        # D9 is repaired in /repo: documentation that is not [safe_doc] (quote at the end, triple quotes, backslashes,
+        # carriage returns) is generated for models, spaces and lambda cells
+        if self.chance(0.25):
             return self.pick(UNSAFE_DOCS)
-        d = self.pick(SAFE_DOCS + UNSAFE_DOCS) if self.chance(0.15) else self.pick(SAFE_DOCS)
-        if self.avoid and not safe_doc(d):
-            self.filtered["D9"] += 1
-            d = self.pick(SAFE_DOCS)
-        return d
+        return self.pick(SAFE_DOCS)
 
     def all_bases(self, sp, seen=None):
         seen = seen if seen is not None else []
@@ -250,12 +244,7 @@ class Gen:
             return
         name = self.pick(cand)
         cached = not self.chance(0.3)
-        want_def = None
-        if not cached and self.avoid:
-            # D8: an uncached lambda cells comes back cached -> generate a def
-            if self.chance(0.55):
-                self.filtered["D8"] += 1
-            want_def = True
+        want_def = None     # D8 (an uncached lambda cells came back cached) is repaired in /repo: lambdas generated
         src, npar = self.gen_formula(sp, name, cached, want_def)
         op = {"op": "cells", "space": sp.path, "name": name, "formula": src}
         an = self.pick([None, None, True, False])
@@ -271,12 +260,7 @@ class Gen:
         if src.startswith("lambda"):
             self.features.add("lambda_cells")
             if self.chance(0.3):
-                d = self.doc()
-                if d == "" and self.avoid:
-                    # D35: an empty documentation string of a lambda cells is not written (comes back as None)
-                    self.filtered["D35"] += 1
-                    d = "doc"
-                op["doc"] = d
+                op["doc"] = self.doc()      # "" included: D35 is repaired in /repo
                 self.features.add("lambda_doc")
         else:
             self.features.add("def_cells")
@@ -367,6 +351,11 @@ class Gen:
                     self.filtered["D37"] += 1
                     o["refmode"] = "absolute"
                     o.pop("how", None)
+                # D36_relative_ref_base_first: a RELATIVE reference to an object outside the owner's tree can only
+                # exist next to sub spaces that override the name; the reader sets the base's reference first and fails
+                if o.get("refmode") == "relative" and tp[:len(sp.path)] != sp.path and self.has_subs(sp):
+                    self.filtered["D36"] += 1
+                    o["refmode"] = "absolute"
 
     def drop_d36(self):
         """D36: the reader sets references after all bases, space by space in tree order; creating
